@@ -38,7 +38,7 @@ def run(tier):
                 return dict(input=text, options=mod.OPTSETS[a[1]], why=mod.tokens_why(text, mod.OPTSETS[a[1]]))
             j.explain = explain
     # integer option values as symbolic integers: wrap_after unbounded, indent_width 1..3
-    wparts = [3, 4, 5] if tier == 'quick' else list(range(12))
+    wparts = [3, 4, 5, 12] if tier == 'quick' else list(range(15))
     for wp in wparts:
         jobs.insert(0, chrun.Job(os.path.join(ROOT, 'vf/ch/layout.py'), 'wrap', 300 if tier == 'quick' else 2400, subst={'PART = -1': f'PART = {wp}'},
                               label=f'wrap[script {wp // 3}, indent_width {wp % 3 + 1}, wrap_after = ANY integer >= 0]', twin=(wp == 3)))
@@ -54,7 +54,7 @@ def run(tier):
     chk.level = 'exploration'
     chk.bounds = dict(grammar=f'a 1/{gsub} slice (VERIF_SEED) of 544 320 scripts of the verification grammar (10 select lists x 6 FROM forms x 9 WHERE x 7 tails x 4 set operations x 4 whitespace fillers x 3 comment positions, every third with a second DML/DDL statement) x 15 option sets',
                       lexemes=f'{nlexeme} lexemes x {nlex} per script x 15 option sets',
-                      symbolic_options='wrap_after: EVERY integer >= 0 (symbolic), indent_width 1..3, comma_first, indent_columns on 1 (quick) / 4 (thorough) fixed scripts -- tokens preserved and reindent normal form',
+                      symbolic_options='wrap_after: EVERY integer >= 0 (symbolic), indent_width 1..3, comma_first, indent_columns on 2 (quick; the second, with line comments in front of list commas, at indent_width 1) / 5 (thorough) fixed scripts -- tokens preserved and reindent normal form',
                       outside='option combinations outside the 14 sets (of 2^9 x widths), indent_width/wrap_after values other than those in the sets; scripts outside the generator')
     chk.extra['rule'] = 'one evaluation = one CrossHair condition (a partition of the script x option space explored to exhaustion); distinct = conditions confirmed over all paths'
     chk.states = len(jobs)
